@@ -108,6 +108,7 @@ type Config struct {
 	BlockEvents          bool              // emit one event per block in BeforeTransactionsExecute
 	Asset                bool              // insert a block asset
 	StrictNonce          bool              // VerifyTransaction enforces the account nonce
+	QuietBlocks          bool              // the block hook writes nothing: a block without transactions leaves the state as it is
 }
 
 type Module struct {
@@ -198,7 +199,9 @@ func (m *Module) VerifyTransaction(ctx *statemachine.TransactionVerifyContext) s
 func (m *Module) BeforeTransactionsExecute(ctx *statemachine.BeforeTransactionsExecuteContext) error {
 	h := make([]byte, 4)
 	binary.BigEndian.PutUint32(h, ctx.BlockHeader().Height())
-	ctx.GetStore(StorePrefix(blockStore), SubPrefix(0)).Set([]byte("lastHeight"), h)
+	if !m.cfg.QuietBlocks {
+		ctx.GetStore(StorePrefix(blockStore), SubPrefix(0)).Set([]byte("lastHeight"), h)
+	}
 	if m.cfg.BlockEvents {
 		return ctx.EventQueue().Add(Name, "blk", h, []codec.Hex{h})
 	}
